@@ -327,7 +327,7 @@ def run(R: core.Run):
     for i in range(n):
         shape = tc.SHAPES[i % len(tc.SHAPES)] if i < n * 0.8 else None
         # thorough: most cases moderate, a tail over four decades of path/resolution
-        r = (0.0, hi) if (not R.thorough or i % 50 == 0) else (0.0, 2.3)
+        r = (0.0, hi) if (not R.thorough or i % 25 == 0) else (0.0, 2.3)
         cases.append(tc.gen_case(R.rng, shape, ratio=r, max_samples=cap, malformed=0.08))
     chunk = 200
     for k in range(0, len(cases), chunk):
